@@ -158,13 +158,28 @@ def gen_envs(argspecs, seed=0, limit=2600):
             break
 
 
-def find_witness(actual, expected, argspecs, names=None, lane_bits=None, seed=0):
+def find_witness(actual, expected, argspecs, names=None, lane_bits=None, seed=0, env_ok=None):
     """a point where the two closed forms differ, or None"""
     for args in gen_envs(argspecs, seed):
         env = {"args": args}
+        if env_ok is not None:
+            ok = env_ok(args, names)
+            if ok is None:
+                return None
+            if not ok:
+                continue
+        try:
+            e = T.ev(expected, env)
+        except T.Uneval:
+            continue
         try:
             a = T.ev(actual, env)
-            e = T.ev(expected, env)
+        except T.Poison as p:
+            w = {"args": {}, "got": "undefined: %s" % p, "expected": hex(e)}
+            for i, v in enumerate(args):
+                nm = names[i] if names and i < len(names) else "arg%d" % i
+                w["args"][nm] = hex(v)
+            return w
         except T.Uneval:
             continue
         if a != e:
@@ -190,7 +205,8 @@ def interpreted(t):
           "fshl", "fshr", "call:llvm.ctpop", "call:llvm.ctlz", "call:llvm.cttz", "call:llvm.bswap",
           "call:llvm.bitreverse", "call:llvm.abs", "call:llvm.umin", "call:llvm.umax",
           "call:llvm.smin", "call:llvm.smax", "call:llvm.uadd.sat", "call:llvm.usub.sat",
-          "call:llvm.sadd.sat", "call:llvm.ssub.sat"}
+          "call:llvm.sadd.sat", "call:llvm.ssub.sat", "spec:bit_floor", "spec:bit_ceil",
+          "sdiv", "udiv", "srem", "urem"}
     seen = set()
     stack = [t]
     while stack:
@@ -227,8 +243,16 @@ def lane_deps_ok(t, lane_bits, argbits):
     return True, None
 
 
-def compare(actual, expected, summary, argspecs, names, lane_bits, pure=True):
+class _NoMem:
+    accesses = ()
+
+
+def compare(actual, expected, summary, argspecs, names, lane_bits, pure=True, env_ok=None):
     """generic verdict for value-returning pure operations"""
+    if pure and summary.accesses and all(
+            a.kind == "r" and (a.base[0] == "global" or (a.base[0] == "add" and any(x[0] == "global" for x in a.base[2:])))
+            for a in summary.accesses):
+        summary = _NoMem      # reads of constant tables are not memory effects of the operation
     if actual is expected:
         if pure and summary.accesses:
             return UNDECIDED, "value matches but the function touches memory", None
@@ -267,7 +291,7 @@ def compare(actual, expected, summary, argspecs, names, lane_bits, pure=True):
     if actual[1] != expected[1]:
         return UNDECIDED, "width mismatch %d vs %d" % (actual[1], expected[1]), None
     if interpreted(actual) and interpreted(expected):
-        w = find_witness(actual, expected, argspecs, names, lane_bits)
+        w = find_witness(actual, expected, argspecs, names, lane_bits, env_ok=env_ok)
         if w is not None:
             return REFUTED, T.show(actual, 5, names), w
         return UNDECIDED, "forms differ, no separating point found: " + T.show(actual, 4, names), None
